@@ -16,11 +16,17 @@ func init() {
 		Title:    "Ring/SyncRing are bounded FIFOs sequentially, across growth and counter wrap",
 		Quick:    20000,
 		Thorough: 1000000,
-		Gen:      gen,
-		Corpus:   corpus,
-		Impl:     impl,
-		Check:    check,
+		Gen:      genBoth,
+		Corpus:   corpusBoth,
+		Impl:     implBoth,
+		Check:    checkBoth,
+		Extras: []core.Extra{
+			{Name: "syncring-honest-wrap", Run: extraHonestWrap, Tiers: []string{"thorough"}},
+		},
 		NonTrivial: func(c core.Case, out []string) bool {
+			if isSync(c) {
+				return syncNonTrivial(c, out)
+			}
 			// at least one successful push while the ring content is wrapped or a recap happened
 			n := 0
 			for i, l := range c.Lines[1:] {
@@ -31,11 +37,14 @@ func init() {
 			}
 			return n > 0 && len(c.Lines) > 4
 		},
-		Rule:     "op sequences (push/pop/peek/len/cap/isempty/isfull/recap/pushx) on Ring[int] of requested capacity -1..6, values distinct counters; non-trivial = at least one successful Recap or a PushWithExpand in a sequence of ≥ 4 ops; distinct by hash of the op list",
-		Classify: classify,
+		Rule: "ring: op sequences (push/pop/peek/len/cap/isempty/isfull/recap/pushx) on Ring[int] of requested capacity -1..6, values distinct counters; non-trivial = at least one successful Recap or a PushWithExpand in a sequence of ≥ 4 ops. " +
+			"sync: op sequences (push/pop/len/cap/isempty/isfull/dump) on SyncRing[int] of requested capacity 1..9 (plus <= 0 and > 2^31), usually after warping the fresh ring's counters to k around 2^32-{0..3cap}, 2^32+j, 2^33±j (reflect+unsafe, proved equal to k honest push/pop pairs); non-trivial = at least two successful pushes. Distinct by hash of the op list",
+		Classify: classifyBoth,
 		Parallel: true,
 		Assumptions: []string{
-			"Go int treated as unbounded (no capacity near 2^63)",
+			"Go int treated as unbounded for Ring (no capacity near 2^63)",
+			"SyncRing is modelled for ONE goroutine: every CompareAndSwap on head/tail succeeds (concurrent behaviour is property C01)",
+			"SyncRing capacities in (2^20, 2^31] are proved about but not executed (the backing array does not fit in memory)",
 		},
 	})
 }
@@ -157,6 +166,7 @@ func check(c core.Case, out []string) *core.Failure {
 			arg, _ = strconv.Atoi(t[1])
 		}
 		var want string
+		before, capBefore := append([]int{}, q...), capacity
 		switch t[0] {
 		case "push":
 			if len(q) < capacity {
@@ -201,6 +211,7 @@ func check(c core.Case, out []string) *core.Failure {
 			want = strconv.FormatBool(len(q) == capacity)
 		}
 		if out[i] != want {
+			q, capacity = before, capBefore
 			return fail(i, want)
 		}
 	}
